@@ -1,6 +1,7 @@
 \* C46 thorough: every history of exactly 3 calls (no VIEW) from every
 \* verifier / insecure configuration with no or all pools registered;
-\* single-fault messages, counters 0..1, pool administration calls
+\* single-fault messages, counters 0..1, pool administration calls, every replay of a
+\* presented message
 CONSTANTS
   Pools = {"p1", "p2"}
   Counters = {0, 1}
